@@ -131,8 +131,8 @@ Definition move2d (e : env) (s : state) (a : Z) (name : list Z) (k : Z) : state 
   end.
 
 (* CellAgent.remove:  super().remove(); self.cell = None
-   FixedAgent.remove (repaired): super().remove(); if self.cell is not None: self.cell.remove_agent(self)
-   (the pointer is left on its value) *)
+   FixedAgent.remove (repaired): super().remove(); if self.cell is not None and self in self.cell.agents:
+   self.cell.remove_agent(self)   (the pointer is left on its value; a second remove() is a no-op) *)
 Definition remove (e : env) (s : state) (a : Z) : state * result :=
   let s0 := set_reg s a false in
   match e_kind e a with
@@ -140,8 +140,10 @@ Definition remove (e : env) (s : state) (a : Z) : state * result :=
       match ptr s a with
       | None => (s0, Ok [])
       | Some c =>
-          let '(s1, r1) := remove_agent s0 c a in
-          match r1 with Some er => (s1, Err er) | None => (s1, Ok []) end
+          if memz a (content s c) then
+            let '(s1, r1) := remove_agent s0 c a in
+            match r1 with Some er => (s1, Err er) | None => (s1, Ok []) end
+          else (s0, Ok [])
       end
   | _ => set_cell e s0 a None
   end.
